@@ -52,7 +52,17 @@ static uint64_t builtin_digest(void) {
 static void jh(uint64_t h) { fprintf(OUT, "[%d,%d]", (int32_t)(h >> 32), (int32_t)(h & 0xffffffffu)); }
 
 /* ---- a query: kind + arguments; result digest */
-const char *QN[] = {"num", "CompoundParser", "GetCompoundDataNISTByName", "GetCompoundDataNISTByIndex", "GetRadioNuclideDataByIndex", "AtomicNumberToSymbol", "SymbolToAtomicNumber", "Crystal_GetCrystal", "Bragg_angle", "Crystal_F_H_StructureFactor", "Atomic_Factors", "Refractive_Index", "GetCompoundDataNISTList"};
+const char *QN[] = {"num", "CompoundParser", "GetCompoundDataNISTByName", "GetCompoundDataNISTByIndex", "GetRadioNuclideDataByIndex", "AtomicNumberToSymbol", "SymbolToAtomicNumber", "Crystal_GetCrystal", "Bragg_angle", "Crystal_F_H_StructureFactor", "Atomic_Factors", "Refractive_Index", "GetCompoundDataNISTList", "Crystal_UnitCellVolume+dSpacing+Q", "Crystal_ReadFile(private array)"};
+/* a small well-formed crystal file, written once per process (reading it into a private array is a query like any other: kind 14) */
+#include <pthread.h>
+static char xfile[300]; static pthread_once_t xfile_once = PTHREAD_ONCE_INIT;
+static void xfile_make(void) {
+  snprintf(xfile, sizeof xfile, "%s/xrl-q14-%d.dat", getenv("XRL_SCRATCH_DIR") ? getenv("XRL_SCRATCH_DIR") : "/tmp", (int)getpid());
+  FILE *f = fopen(xfile, "w"); if (!f) { xfile[0] = 0; return; }
+  fputs("#F q14\n", f);
+  for (int i = 0; i < 6; i++) fprintf(f, "#S %d Qx%c%d\n#UCELL %g 4.5 6.25 90 90 %d\n#N 5\n#L Z f x y z\n14 1.0 0 0 0\n8 0.5 0.25 0.%d 0.5\n", i + 1, 'f' - i, i, 3.0 + 0.25 * i, i % 2 ? 120 : 90, i + 1);
+  fclose(f);
+}
 Result run_query(const Query *q) {
   Result r = {0, -1, H0}; xrl_error *e = NULL;
   switch (q->kind) {
@@ -64,9 +74,20 @@ Result run_query(const Query *q) {
   case 5: { char *s = AtomicNumberToSymbol(q->ia[0], &e); if (s) { r.h = fnv(r.h, s, strlen(s)); xrlFree(s); } break; }
   case 6: { int z = SymbolToAtomicNumber(q->s, &e); HV(r.h, z); break; }
   case 7: { Crystal_Struct *c = Crystal_GetCrystal(q->s, NULL, &e); if (c) { r.h = fnv(r.h, c->name, strlen(c->name)); HV(r.h, c->a); HV(r.h, c->volume); HV(r.h, c->n_atom); HA(r.h, c->atom, c->n_atom); Crystal_Free(c); } break; }
-  case 8: case 9: { Crystal_Struct *c = Crystal_GetCrystal(q->s, NULL, NULL); if (!c) { r.h = 7; break; }
-            if (q->kind == 8) { double v = Bragg_angle(c, q->da[0], q->ia[0], q->ia[1], q->ia[2], &e); HV(r.h, v); } else { xrlComplex z = Crystal_F_H_StructureFactor(c, q->da[0], q->ia[0], q->ia[1], q->ia[2], 1.0, 1.0, &e); HV(r.h, z.re); HV(r.h, z.im); }
-            Crystal_Free(c); break; }
+  case 8: case 9: case 13: { Crystal_Struct *c = Crystal_GetCrystal(q->s, NULL, NULL); if (!c) { r.h = 7; break; }
+            /* the crystal handed to a query is the caller's object: a query must not write to it */
+            uint64_t in0 = H0; in0 = fnv(in0, c->name, strlen(c->name)); HV(in0, c->a); HV(in0, c->b); HV(in0, c->c); HV(in0, c->alpha); HV(in0, c->beta); HV(in0, c->gamma); HV(in0, c->volume); HV(in0, c->n_atom); HA(in0, c->atom, c->n_atom);
+            if (q->kind == 8) { double v = Bragg_angle(c, q->da[0], q->ia[0], q->ia[1], q->ia[2], &e); HV(r.h, v); }
+            else if (q->kind == 9) { xrlComplex z = Crystal_F_H_StructureFactor(c, q->da[0], q->ia[0], q->ia[1], q->ia[2], 1.0, 1.0, &e); HV(r.h, z.re); HV(r.h, z.im); }
+            else { double v = Crystal_UnitCellVolume(c, &e); HV(r.h, v); if (!e) { double d = Crystal_dSpacing(c, q->ia[0], q->ia[1], q->ia[2] + 1, &e); HV(r.h, d); } if (!e) { double qq = Q_scattering_amplitude(c, q->da[0], q->ia[0], q->ia[1], q->ia[2] + 1, 1.0, &e); HV(r.h, qq); } }
+            uint64_t in1 = H0; in1 = fnv(in1, c->name, strlen(c->name)); HV(in1, c->a); HV(in1, c->b); HV(in1, c->c); HV(in1, c->alpha); HV(in1, c->beta); HV(in1, c->gamma); HV(in1, c->volume); HV(in1, c->n_atom); HA(in1, c->atom, c->n_atom);
+            Crystal_Free(c);
+            if (in0 != in1) { xrl_clear_error(&e); r.ok = -5; r.code = -5; return r; }      /* impossible status: the validator reports it whatever the reference says */
+            break; }
+  case 14: { pthread_once(&xfile_once, xfile_make); Crystal_Array *arr = Crystal_ArrayInit(q->ia[0] % 4, NULL); if (!arr) { r.h = 9; break; }
+             int rv = Crystal_ReadFile(xfile, arr, &e); HV(r.h, rv); HV(r.h, arr->n_crystal);
+             int n = 0; char **l = Crystal_GetCrystalsList(arr, &n, NULL); for (int i = 0; l && i < n; i++) { r.h = fnv(r.h, l[i], strlen(l[i])); Crystal_Struct *c = Crystal_GetCrystal(l[i], arr, NULL); if (c) { HV(r.h, c->a); HV(r.h, c->gamma); HV(r.h, c->volume); Crystal_Free(c); } xrlFree(l[i]); } xrlFree(l);
+             Crystal_ArrayFree(arr); break; }
   case 10: { double f0, f1, f2; int rv = Atomic_Factors(q->ia[0], q->da[0], q->da[1], 1.0, &f0, &f1, &f2, &e); HV(r.h, rv); HV(r.h, f0); HV(r.h, f1); HV(r.h, f2); break; }
   case 11: { xrlComplex z = Refractive_Index(q->s, q->da[0], q->da[1], &e); HV(r.h, z.re); HV(r.h, z.im); break; }
   case 12: { int n; char **l = GetCompoundDataNISTList(&n, &e); HV(r.h, n); for (int i = 0; l && l[i]; i++) { r.h = fnv(r.h, l[i], strlen(l[i])); xrlFree(l[i]); } xrlFree(l); break; }
@@ -90,7 +111,7 @@ static Result reference(const Query *q) { Result r = {-8, -8, 0}; if (write(to_s
 
 static const double ES[] = {-1.0, 0.0, 1e-3, 0.5, 1.0, 4.0, 8.979, 17.44, 29.2, 59.5, 100.0, 300.0, 999.0, 1500.0};
 static const double AS[] = {0.0, 0.3, 0.7853981633974483, 1.5707963267948966, 2.7, 3.141592653589793, -1.0};
-static const char *STRS[] = {"H2O", "Ca5(PO4)3OH", "SiO2", "Water, Liquid", "Polyethylene", "H2O)", "", "Rf", "Fe", "Au", "U", "Xx", "Si", "Diamond", "nope"};
+static const char *STRS[] = {"H2O", "Ca5((P(O2)2)3)OH", "SiO2", "Water, Liquid", "Polyethylene", "H2O)", "", "Rf", "Fe", "((((((((((H2O))))))))))", "U", "Xx", "Si", "Diamond", "nope"};
 void random_query(Query *q) {
   memset(q, 0, sizeof *q); int r = rndint(0, 99);
   if (r < 62) { int nf = 0; while (API_TABLE[nf].name) nf++; q->kind = 0; q->fn = rndint(0, nf - 1); const ApiFn *f = &API_TABLE[q->fn];
@@ -103,10 +124,11 @@ void random_query(Query *q) {
   else if (r < 82) { q->kind = 5; q->ia[0] = rndint(-1, 110); }
   else if (r < 84) { q->kind = 6; snprintf(q->s, sizeof q->s, "%s", STRS[rndint(5, 14)]); }
   else if (r < 88) { q->kind = 7; snprintf(q->s, sizeof q->s, "%s", STRS[rndint(11, 14)]); }
-  else if (r < 92) { q->kind = rndint(8, 9); snprintf(q->s, sizeof q->s, "%s", STRS[rndint(12, 13)]); q->ia[0] = rndint(-2, 2); q->ia[1] = rndint(-2, 2); q->ia[2] = rndint(0, 3); q->da[0] = ES[rndint(3, 10)]; }
+  else if (r < 92) { q->kind = (int[]){8, 9, 13}[rndint(0, 2)]; snprintf(q->s, sizeof q->s, "%s", STRS[rndint(12, 13)]); q->ia[0] = rndint(-2, 2); q->ia[1] = rndint(-2, 2); q->ia[2] = rndint(0, 3); q->da[0] = ES[rndint(3, 10)]; }
   else if (r < 95) { q->kind = 10; q->ia[0] = rndint(0, 100); q->da[0] = ES[rndint(2, 11)]; q->da[1] = rndint(0, 8) / 4.0; }
-  else if (r < 99) { q->kind = 11; snprintf(q->s, sizeof q->s, "%s", STRS[rndint(0, 7)]); q->da[0] = ES[rndint(0, 13)]; q->da[1] = rndint(-1, 3); }
-  else q->kind = 12;
+  else if (r < 97) { q->kind = 11; snprintf(q->s, sizeof q->s, "%s", STRS[rndint(0, 7)]); q->da[0] = ES[rndint(0, 13)]; q->da[1] = rndint(-1, 3); }
+  else q->kind = r < 99 ? 14 : 12;
+  if (q->kind == 14) q->ia[0] = rndint(0, 40);
 }
 #define NERR 4
 static xrl_error *held[NERR]; static FILE *errf; static char cwd0[512];
